@@ -10,7 +10,7 @@ CLOSURE = {"C": "int", "CS": "str", "CL": "ilist", "H": "int"}  # H exists as a 
 GLOBALS = {"G": "int", "GS": "str", "GL": "ilist", "Y": "int"}
 EXTRA_ARGS = {"Y": "int"}  # a parameter of the function that the condition never takes; collides with the global Y
 CMP_OPS = ["<", "<=", ">", ">=", "==", "!="]
-ALPHABET = "abcxyz"
+ALPHABET = "abcxyz\u00e9\u03bb"  # two non-ASCII letters: ascii() and repr() differ on them
 
 
 class Gen:
@@ -201,7 +201,7 @@ class Gen:
             a = self.pick([n for n, t in ARGS.items() if t in ("int", "str") and n != "id"])
             self.used.add((a, "arg"))
             conv = self.pick(["", "!r", "!s", "!a"])
-            spec = self.pick(["", ":>4", ":<3"]) if conv == "" else ""
+            spec = self.pick(["", ":>4", ":<3"]) if (conv == "" or ARGS[a] == "str") else ""
             return "f'%s{%s%s%s}'" % (self.draw(st.text("ab", max_size=2)), a, conv, spec)
         if k == 3:
             return "(%s + %s)" % (self.expr("str", depth - 1), self.expr("str", depth - 1))
@@ -370,6 +370,10 @@ GUARDED = [
     ("mkq(0) < q < mkq(10 // q.v)", ["q"]),
     ("mkq({k}) <= q <= mkq(10 // q.v) < mkq(100)", ["q"]),
     ("ident(mkq(1) > q > mkq(10 % q.v))", ["q"]),
+    # displays holding an array-like whose == against foreign objects has no truth value (never compared by Python here)
+    ("len([q, x]) > {k} + 100", ["q", "x"]),
+    ("len((q, mkq(2))) > 100 or first([q]) < mkq(-1000)", ["q"]),
+    ("n != 0 and len([q, 10 // n]) > {k} + 100", ["n", "q"]),
 ]
 
 
